@@ -186,7 +186,7 @@ Qed.
 
 Ltac simp_state :=
   unfold upd_call, upd_notif, set_pr, finish_pr, write_err_body in *;
-  try match goal with |- context [if s_writeErr ?s then _ else _] => destruct (s_writeErr s) end;
+  try match goal with |- context [if s_writeErr ?s then _ else _] => let EW := fresh "EW" in destruct (s_writeErr s) eqn:EW end;
   cbn [s_connClosing s_reading s_readErr s_writeErr s_closer s_outgoing s_outNotifs s_incoming s_byID s_queue
        s_handlerRunning s_done s_seq s_calls s_reqs s_asyncs s_notifs s_reader s_handler s_resps s_cancels s_closers
        s_main s_preempter s_rwc_closes s_ondones s_rwc_acked s_ondone_acked
@@ -262,4 +262,51 @@ Proof.
     destruct (ic_out _ _ _ I _ _ E2) as (cr & E' & _ & Hr & _). eapply retire_some; eauto.
   - apply alookup_in in E0. destruct (ic_out _ _ _ I _ _ E0) as (cr & E' & _ & Hr & _). eapply retire_some; eauto.
   - destruct (retire_all_inv _ _ _ I) as (l' & R & _). congruence.
+Qed.
+
+(* a response, once set, is never changed (a second Await sees the same answer) *)
+Lemma retire_keeps c r calls calls' c1 cr1 r1 : retire c r calls = Some calls' ->
+  nth_error calls c1 = Some cr1 -> c_resp cr1 = Some r1 -> nth_error calls' c1 = Some cr1.
+Proof.
+  intros H E R. apply retire_nth in H as (cr & E' & Hn & ->). rewrite nth_error_upd.
+  destruct (Nat.eqb_spec c c1); [subst; congruence | assumption].
+Qed.
+Lemma retire_all_keeps l : forall calls calls' c1 cr1 r1, retire_all l calls = Some calls' ->
+  nth_error calls c1 = Some cr1 -> c_resp cr1 = Some r1 -> nth_error calls' c1 = Some cr1.
+Proof.
+  induction l as [|[i c] l IH]; simpl; intros calls calls' c1 cr1 r1 H E R.
+  - injection H as <-; assumption.
+  - destruct (retire c _ calls) eqn:X; [|discriminate]. eapply IH; eauto. eapply retire_keeps; eauto.
+Qed.
+Lemma upd_keeps_resp calls c cr r c0 cr0 cr0' :
+  nth_error calls c = Some cr -> c_resp cr = Some r -> nth_error calls c0 = Some cr0 ->
+  (c_resp cr0 = Some r -> c_resp cr0' = Some r) -> c_id cr0' = c_id cr0 ->
+  exists cr', nth_error (upd c0 cr0' calls) c = Some cr' /\ c_resp cr' = Some r /\ c_id cr' = c_id cr.
+Proof.
+  intros E R E0 HR HI. rewrite nth_error_upd. destruct (Nat.eqb_spec c0 c).
+  - subst c0. rewrite E. rewrite E in E0; injection E0 as <-. eauto.
+  - eauto.
+Qed.
+Lemma resp_stable_body s l s1 c cr r : InvC s -> body_step s l = Ok s1 -> nth_error (s_calls s) c = Some cr -> c_resp cr = Some r ->
+  exists cr', nth_error (s_calls s1) c = Some cr' /\ c_resp cr' = Some r /\ c_id cr' = c_id cr.
+Proof.
+  intros I H E R. destruct l; inv_body H; simp_state; eauto.
+  all: try (eapply upd_keeps_resp; eauto; fail).
+  - exists cr. rewrite nth_error_app1 by (eapply nth_error_lt; eauto). auto.
+  - assert (c0 <> c).
+    { intros ->. rewrite E in E0; injection E0 as <-.
+      destruct (ck_pre _ _ _ _ (ic_calls _ _ _ I _ _ E)) as [X _]; [rewrite E1; reflexivity | congruence]. }
+    exists cr. rewrite nth_error_upd_other; auto.
+  - assert (c0 <> c).
+    { intros ->. rewrite E in E0; injection E0 as <-.
+      destruct (ck_pre _ _ _ _ (ic_calls _ _ _ I _ _ E)) as [X _]; [rewrite E1; reflexivity | congruence]. }
+    exists cr. rewrite nth_error_upd_other; auto.
+  - pose proof (retire_keeps _ _ _ _ _ _ _ E3 E R) as K. apply retire_nth in E3 as (cr0 & X & Y & ->).
+    assert (c0 <> c) by (intros ->; congruence).
+    exists cr. rewrite nth_error_upd_other; auto.
+  - pose proof (retire_keeps _ _ _ _ _ _ _ E5 E R) as K. apply retire_nth in E5 as (cr0 & X & Y & ->).
+    assert (c0 <> c) by (intros ->; congruence).
+    exists cr. rewrite nth_error_upd_other; auto.
+  - exists cr. split; [eapply retire_keeps; eauto | auto].
+  - exists cr. split; [eapply retire_all_keeps; eauto | auto].
 Qed.
